@@ -155,6 +155,84 @@ Proof.
   apply filter_ext. intros x. fold (dedup (seen pneg pre cur 0)). rewrite vmem_dedup. reflexivity.
 Qed.
 
+(* ------------------------------------------------------------------ cross_singleton *)
+
+Definition cross_singleton_spec (p : pers) : hspec :=
+  fun pre cur => [cross_single (port 0 cur) (firstn 1 (seen p pre cur 1))].
+
+Lemma fold_keep_first : forall l, fold_left keep_first l [] = firstn 1 l.
+Proof.
+  intros [|x r]; [reflexivity|]. cbn [fold_left keep_first firstn].
+  induction r as [|y r IH]; [reflexivity | exact IH].
+Qed.
+
+Theorem cross_singleton_correct : forall p h t, (t < length h)%nat ->
+  nth t (run_op (op_cross_singleton p) h) [] = tick_view (cross_singleton_spec p) h t.
+Proof.
+  intros p. apply named_correct. intros pre cur. rewrite acc2_spec.
+  rewrite fold_vec_push_nil, fold_keep_first. reflexivity.
+Qed.
+
+(* ------------------------------------------------------------------ fold_no_replay / reduce_no_replay *)
+
+(* the accumulated value as for fold / reduce, emitted only when the tick has new input or is tick 0 *)
+Definition no_replay_spec (p : pers) (init : list val) (ins : list val -> val -> list val) : hspec :=
+  fun pre cur =>
+    [match port 0 cur, pre with
+     | [], _ :: _ => []
+     | _, _ => fold_left ins (seen p pre cur 0) init
+     end].
+
+Definition nr_state (p : pers) (init : list val) (ins : list val -> val -> list val)
+           (pre : list (list (list val))) : ostate :=
+  {| st_ports := [fold_left ins (kept p pre 0) init; match pre with [] => [] | _ => [VN 1] end] |}.
+
+Lemma run_no_replay : forall p init ins h pre,
+  run_from (ONoReplay p init ins) (nr_state p init ins pre) h = spec_run (no_replay_spec p init ins) pre h.
+Proof.
+  intros p init ins h. induction h as [|c r IH]; intros pre; cbn [run_from spec_run]; [reflexivity|].
+  unfold nr_state at 1. cbn [op_step op_end st_ports port nth].
+  rewrite <- fold_left_app. fold (seen p pre c 0).
+  f_equal.
+  - unfold no_replay_spec. unfold port. destruct (nth 0 c []); destruct pre; reflexivity.
+  - rewrite <- IH. f_equal. unfold nr_state. f_equal. f_equal.
+    + unfold seen, kept. destruct p; [reflexivity|]. rewrite items_app. reflexivity.
+    + f_equal. destruct pre; reflexivity.
+Qed.
+
+Theorem no_replay_correct : forall p init ins h t, (t < length h)%nat ->
+  nth t (run_op (ONoReplay p init ins) h) [] = tick_view (no_replay_spec p init ins) h t.
+Proof.
+  intros p init ins h t Ht. unfold run_op, tick_view. cbn [op_init].
+  assert (E : {| st_ports := [init; []] |} = nr_state p init ins []) by (destruct p; reflexivity).
+  rewrite E, run_no_replay. rewrite (spec_run_nth (no_replay_spec p init ins) h [] t [] []) by exact Ht. reflexivity.
+Qed.
+
+Definition fold_no_replay_spec (p : pers) (init : val) (f : val -> val -> val) : hspec :=
+  fun pre cur => [match port 0 cur, pre with
+                  | [], _ :: _ => []
+                  | _, _ => [fold_left f (seen p pre cur 0) init]
+                  end].
+Definition reduce_no_replay_spec (p : pers) (f : val -> val -> val) : hspec :=
+  fun pre cur => [match port 0 cur, pre with
+                  | [], _ :: _ => []
+                  | _, _ => match seen p pre cur 0 with [] => [] | x :: r => [fold_left f r x] end
+                  end].
+
+Theorem fold_no_replay_correct : forall p init f h t, (t < length h)%nat ->
+  nth t (run_op (op_fold_no_replay p init f) h) [] = tick_view (fold_no_replay_spec p init f) h t.
+Proof.
+  intros p init f h t Ht. unfold op_fold_no_replay. rewrite no_replay_correct by exact Ht.
+  unfold tick_view, no_replay_spec, fold_no_replay_spec. rewrite fold_fold_ins. reflexivity.
+Qed.
+
+Theorem reduce_no_replay_correct : forall p f h t, (t < length h)%nat ->
+  nth t (run_op (op_reduce_no_replay p f) h) [] = tick_view (reduce_no_replay_spec p f) h t.
+Proof.
+  intros p f h t Ht. unfold op_reduce_no_replay. rewrite no_replay_correct by exact Ht.
+  unfold tick_view, no_replay_spec, reduce_no_replay_spec. rewrite fold_reduce_ins. reflexivity.
+Qed.
+
 (* ------------------------------------------------------------------ scan *)
 
 (* the outputs of this tick are what the running scan over everything its lifetime has seen
@@ -433,7 +511,10 @@ Lemma named_operators_correct :
   op_correct_ (op_zip Tick Tick) zip_tick_spec /\
   op_correct_ (op_zip Static Static) zip_static_spec /\
   op_correct_ op_zip_longest (fun _ cur => [vzip_longest (port 0 cur) (port 1 cur)]) /\
-  (forall p i f, op_correct_ (op_scan p i f) (scan_spec p i f)).
+  (forall p i f, op_correct_ (op_scan p i f) (scan_spec p i f)) /\
+  (forall p, op_correct_ (op_cross_singleton p) (cross_singleton_spec p)) /\
+  (forall p i f, op_correct_ (op_fold_no_replay p i f) (fold_no_replay_spec p i f)) /\
+  (forall p f, op_correct_ (op_reduce_no_replay p f) (reduce_no_replay_spec p f)).
 Proof.
   assert (SL : forall g (sp : hspec), (forall pre cur, g cur = sp pre cur) -> op_correct_ (OStateless g) sp).
   { intros g sp H h t Ht. rewrite (stateless_correct g h t Ht). unfold tick_view, stateless_spec. apply H. }
@@ -457,6 +538,9 @@ Proof.
   - apply zip_tick_correct.
   - apply zip_static_correct.
   - apply scan_correct.
+  - apply cross_singleton_correct.
+  - apply fold_no_replay_correct.
+  - apply reduce_no_replay_correct.
 Qed.
 
 Lemma named_meaning :
